@@ -54,6 +54,7 @@ let z_of_decimal (s : string) : z =
   let body = if neg then String.sub s 1 (String.length s - 1) else s in
   match pos_of_decimal body with None -> Z0 | Some p -> if neg then Zneg p else Zpos p
 
+let lit_str (s : string) : n list = List.init (String.length s) (fun i -> n_of_int (Char.code s.[i]))
 let str_of_arg (a : string) : n list =
   if a = "-" then []
   else List.map (fun t -> n_of_int (int_of_string t)) (String.split_on_char ' ' a)
@@ -290,8 +291,22 @@ let run (op : string) (args : string list) : string =
        | Val d -> "OK:" ^ arg_of_str d.dep_pattern.ptext ^ "|" ^ show_pp d.dep_path ^ "|T"
        | Fail DInvalid -> "E:Invalid" | Fail DPattern -> "E:Pattern" | Fail DPkgPath -> "E:PkgPath"
        | Panic _ -> "PANIC" | OutOfFuel -> "FUEL")
-  | "scan.read", [s; k] ->
-      (match scan_read (str_of_arg s) (k <> "N") with
+  | ("scan.read" | "scan.readb"), [s; k] ->
+      (* scan.readb: raw bytes; a text that is not UTF-8 makes BufRead::lines fail, which fails the read; valid UTF-8 is
+         decoded here (glue) and handed to the model as code points *)
+      let bytes_in = str_of_arg s in
+      let decode (l : n list) : n list =
+        let rec go = function
+          | [] -> []
+          | b0 :: r ->
+              let b0 = int_of_n b0 in
+              if b0 < 0x80 then n_of_int b0 :: go r
+              else if b0 < 0xE0 then (match r with b1 :: r1 -> n_of_int (((b0 land 0x1F) lsl 6) lor (int_of_n b1 land 0x3F)) :: go r1 | _ -> [])
+              else if b0 < 0xF0 then (match r with b1 :: b2 :: r2 -> n_of_int (((b0 land 0x0F) lsl 12) lor ((int_of_n b1 land 0x3F) lsl 6) lor (int_of_n b2 land 0x3F)) :: go r2 | _ -> [])
+              else (match r with b1 :: b2 :: b3 :: r3 -> n_of_int (((b0 land 0x07) lsl 18) lor ((int_of_n b1 land 0x3F) lsl 12) lor ((int_of_n b2 land 0x3F) lsl 6) lor (int_of_n b3 land 0x3F)) :: go r3 | _ -> [])
+        in go l in
+      let text_in, bad = if op = "scan.readb" then (if utf8_valid bytes_in then (decode bytes_in, false) else ([], true)) else (bytes_in, false) in
+      (match (if bad then None else scan_read text_in (k <> "N")) with
        | None -> "E"
        | Some rs ->
            "OK:" ^ String.concat "#" (List.map (fun r ->
@@ -319,14 +334,22 @@ let run (op : string) (args : string list) : string =
         | "f" :: name :: _ -> { de_name = str_of_arg name; de_is_dir = false; de_files = [] }
         | "d" :: name :: rest ->
             let files = match rest with f :: _ when f <> "" -> List.map str_of_arg (String.split_on_char ',' f) | _ -> [] in
-            { de_name = str_of_arg name; de_is_dir = true; de_files = files }
+            (* a leading NUL marks a file the harness creates empty: the model only knows which files exist *)
+            let strip = function N0 :: r -> r | l -> l in
+            { de_name = str_of_arg name; de_is_dir = true; de_files = List.map strip files }
         | _ -> failwith "dirent" in
+      let empty_comment a =
+        match String.split_on_char ':' a with
+        | "d" :: name :: f :: _ when f <> "" ->
+            if List.exists (fun t -> str_of_arg t = N0 :: lit_str "+COMMENT") (String.split_on_char ',' f) then [str_of_arg name] else []
+        | _ -> [] in
+      let empties = List.concat_map empty_comment ents in
       let pkgs = db_iter (List.map dirent_of ents) in
       (* content of +COMMENT as written by the harness *)
       let comment = " content of +COMMENT \n" in
-      let enc_s s = String.concat " " (List.map string_of_int (List.init (String.length s) (fun i -> Char.code s.[i]))) in
+      let enc_s s = if s = "" then "-" else String.concat " " (List.map string_of_int (List.init (String.length s) (fun i -> Char.code s.[i]))) in
       let items = List.map (function
-        | Some p -> arg_of_str p.pk_name ^ "|" ^ arg_of_str p.pk_base ^ "|" ^ arg_of_str p.pk_version ^ "|" ^ enc_s comment
+        | Some p -> arg_of_str p.pk_name ^ "|" ^ arg_of_str p.pk_base ^ "|" ^ arg_of_str p.pk_version ^ "|" ^ enc_s (if List.mem p.pk_name empties then "" else comment)
         | None -> "ERR") pkgs in
       "OK:" ^ String.concat "#" (List.sort compare items)
   | "db.other", [k] ->
